@@ -46,6 +46,15 @@ def main(tier):
                      "panic": any(o["panic"] for o in x["ops"])}
             run.violation(facts, {"line": x})
         run.extra["rejected_lines"] = len(bad)
+        # ---- the system specification of the two-stage exchange, bound end to end (real client, ten simulated realms, replaying attacker)
+        import sysk5
+        info, slines, problem = sysk5.run_tgs(run, quick=not run.thorough)
+        run.extra["system_spec_tgs"] = info
+        if problem:
+            run.violation({"system_trace": True}, {"problem": problem, "events": slines[:400]})
+        else:
+            run.cov["traces_validated_against_impl"] += info.get("events", 0)
+            run.cov["evaluations"] += info["delivered"] + info["gave_up"]
         run.assumptions += ["'any RFC 4120-conformant KDC' is approximated by the legal variants of one simulated KDC",
                             "Kerberos times have 1 s resolution: validity is ambiguous within 1 s of a ticket's end and accepted either way",
                             "a referral chain of exactly the bound + 1 (7) may succeed or fail; DNS discovery is not modelled"]
